@@ -7,7 +7,7 @@ V = {}
 
 def add(proto, kind, nm, ns, mode, T, tier, **kw):
     tag = "".join(f"+{k}" for k, val in sorted(kw.items()) if val is True)
-    n = f"axi{'' if proto == 'full' else 'lite'}.{kind}({nm}x{ns},{mode},timeout={T}){tag}" + (",q2" if kw.get("qdepth") else "")
+    n = f"axi{'' if proto == 'full' else 'lite'}.{kind}({nm}x{ns},{mode},timeout={T}){tag}" + (",q2" if kw.get("qdepth") else "") + (f",{kw['dw']}bit" if kw.get("dw") else "")
     V[n] = (tier, dict(proto=proto, kind=kind, nm=nm, ns=ns, mode=mode, timeout=T, faults=True, w_late=False, unmapped=True, **kw))
 
 
@@ -33,6 +33,9 @@ for proto in ("lite", "full"):
     add(proto, "timeout", 1, 1, "mixed", 2, "thorough", eager_ready=True)
     add(proto, "shared", 1, 2, "read", 2, "quick", eager_ready=True)
     add(proto, "shared", 2, 2, "read", 2, "thorough", eager_ready=True)
+    # wide buses: all-ones read data over the whole word
+    add(proto, "timeout", 1, 1, "read", 2, "quick", dw=64)
+    add(proto, "shared", 1, 2, "read", 2, "thorough", dw=128)
 
 
 def configs(tier):
